@@ -1130,8 +1130,8 @@ func run(c *vf.Ctx) {
 		r := c.Rand("seq", i)
 		f := feat{
 			Nested:   r.Intn(100) < 50,
-			Sym:      r.Intn(100) < 40,
-			RmPeeled: r.Intn(100) < 50,
+			Sym:      r.Intn(100) < 55,
+			RmPeeled: r.Intn(100) < 80,
 			CasMiss:  r.Intn(100) < 50,
 			CasSym:   r.Intn(100) < 25,
 			GitOps:   r.Intn(100) < 50,
